@@ -134,6 +134,8 @@ class World:
     # ------------------------------------------------------------------
     def fail(self, sig, detail):
         if self.violation is None:
+            # the scratch root differs from run to run
+            detail = detail.replace(self.tm_root, '<root>')
             self.violation = {'sig': sig, 'detail': detail, 'step': self.n}
             self.log.ev('violation', sig, detail)
 
@@ -611,17 +613,42 @@ class World:
             if canon is not None and canon in self.intended.get(name, ()):
                 continue
             kind = fired['kind'] if fired else 'no-fault'
+            calls = [(c, b) for c, b, _n in self.seam.trace][-8:]
             if canon is None:
                 what = 'is not a complete YAML mapping (%d bytes: %r)' % (
                     len(raw), raw[:60])
             else:
+                known = self.intended.get(name, set()) | \
+                    self.cand.get(name, set())
+                field = self.merge_field(canon, known)
+                if field is not None:
+                    # complete, but not what was to be written
+                    self.fail('C12:written-content-wrong:%s' % field,
+                              '%s: cache entry %r is a complete manifest '
+                              'whose %s differs from every content ever '
+                              'intended for that name: %s; fs calls: %s' % (
+                                  when, name, field, canon[:300], calls))
+                    return
                 what = 'parses, but to something that was never the ' \
                        'intended content of that name: %s' % canon[:200]
             self.fail('C12:partial-file-visible:%s' % kind,
                       '%s: cache entry %r %s; fs calls of the step so far: %s'
-                      % (when, name, what,
-                         [(c, b) for c, b, _n in self.seam.trace][-8:]))
+                      % (when, name, what, calls))
             return
+
+    @staticmethod
+    def merge_field(canon, known):
+        """If the content equals an intended one except for the merged
+        fields (task id, placement data), the name of the first such field."""
+        got = json.loads(canon)
+        merged = ('task',) + PLACEMENT_KEYS
+        for cand in sorted(known):
+            want = json.loads(cand)
+            diff = {k for k in set(got) | set(want)
+                    if got.get(k, KeyError) != want.get(k, KeyError)}
+            if diff and diff <= set(merged):
+                return [k for k in merged if k in diff][0]
+        return None
 
     def check_written(self, written):
         for name in written:
@@ -638,20 +665,7 @@ class World:
             elif not cands:
                 field = 'no-such-placement'
             else:
-                field = 'manifest'
-                got = json.loads(canon)
-                best = None
-                for cand in sorted(cands):
-                    want = json.loads(cand)
-                    diff = sorted(k for k in set(got) | set(want)
-                                  if got.get(k, KeyError) !=
-                                  want.get(k, KeyError))
-                    if best is None or len(diff) < len(best):
-                        best = diff
-                for key in ('task',) + PLACEMENT_KEYS:
-                    if key in best:
-                        field = key
-                        break
+                field = self.merge_field(canon, cands) or 'manifest'
             self.fail('C12:written-content-wrong:%s' % field,
                       'file %r written by this synchronisation holds %s; '
                       'expected one of %s' % (
